@@ -1,0 +1,15 @@
+//go:build !verif
+
+package raft
+
+// Scheduling points of the channel-based Node at which a deterministic
+// simulator can take control (build tag verif, see verif_hooks.go). Without
+// the tag verifYield is an empty function and the shipped behaviour is
+// unchanged.
+const (
+	verifLoopTop = iota
+	verifLoopProposalStepped
+	verifProposalHandedOver
+)
+
+func verifYield(*node, int, bool, bool, bool) {}
